@@ -510,8 +510,23 @@ def chunks(l, n):
     return [l[i:i + n] for i in range(0, len(l), n)]
 
 
+def replace_calls(tier):
+    """`replace` exhaustively over a two-letter alphabet: every receiver up to length 5 x every pattern of length 1-2 x every
+    replacement of length 0-2 (pattern and replacement overlapping each other in every way), plus a few longer patterns and a
+    multi-byte pair. Matches are found left to right and never overlap; replaced text is not scanned again."""
+    import itertools
+    words = lambda lo, hi: ["".join(t) for n in range(lo, hi + 1) for t in itertools.product("ab", repeat=n)]
+    out = []
+    for s_ in words(0, 5 if tier == "thorough" else 4) + ["ababab", "aaaaaa", "1001", "---", "banana"]:
+        for p_ in words(1, 2) + ["aba", "aab", "10", "--", "an"]:
+            for r_ in words(0, 2) + ["bab", "01", " -", "na", p_ + p_]:
+                out.append(("replace", s_, [p_, r_]))
+    out += [("replace", "éèé", ["éè", "èé"]), ("replace", "日日日", ["日日", "本日"]), ("replace", "aXbXc", ["X", "XX"])]
+    return out
+
+
 def enumerated(tier, seed):
-    calls = str_calls(ASCII + MULTI, tier == "thorough") + num_calls(tier)
+    calls = str_calls(ASCII + MULTI, tier == "thorough") + num_calls(tier) + replace_calls(tier)
     return [{"calls": c} for c in chunks(calls, 80)]
 
 
